@@ -253,8 +253,68 @@ func RunC16(seed int64, tier, out string) {
 			flush()
 		}
 	}
+	// every message type once, delivered in regular chunks of every size 2..9 at every phase (a reader
+	// that takes "what is available" sees every residue of every field boundary); all of them checked
+	// against the expected envelopes, the sizes 3 and 5 at phase 0 also evaluated in the model
+	for t := wire.Type(0); t < wire.LastType; t++ {
+		reps := 2
+		if tier == "thorough" {
+			reps = 12
+		}
+		for rep := 0; rep < reps; rep++ {
+			e := g.Envelope(t)
+			var buf bytes.Buffer
+			if err := ser.Encode(&buf, e); err != nil {
+				continue
+			}
+			stream := buf.Bytes()
+			want := cv.Envelope(e)
+			for size := 2; size <= 9; size++ {
+				for phase := 0; phase < size; phase++ {
+					var cuts []int
+					for i := phase; i < len(stream); i += size {
+						if i > 0 {
+							cuts = append(cuts, i)
+						}
+					}
+					chunks := split(stream, cuts)
+					rd := &chunkReader{chunks: append([][]byte{}, chunks...)}
+					var got []string
+					clean := true
+					for !rd.empty() {
+						d, err := ser.Decode(rd)
+						if err != nil {
+							clean = false
+							break
+						}
+						got = append(got, cv.Envelope(d))
+					}
+					good := clean && len(got) == 1 && got[0] == want
+					idx := -1
+					if phase == 0 && (size == 3 || size == 5) && rep == 0 {
+						chunkTerms := make([]string, len(chunks))
+						for i, c := range chunks {
+							chunkTerms[i] = hx.Hex(c)
+						}
+						idx = total + len(cases)
+						cases = append(cases, hx.App("CChunks", hx.List(chunkTerms), hx.List(got), hx.Bool(clean)))
+						res.CaseIndex = append(res.CaseIndex, "native/regular")
+						if len(cases) >= 16 {
+							flush()
+						}
+					}
+					res.Count("native/regular", fmt.Sprintf("good=%v", good), fmt.Sprintf("regular/%d/%d/%d/%v", t, size, phase, good), false)
+					if !good {
+						res.Fail(hx.Failure{Site: "perunio/serializer.Decode", InputClass: "regular", Case: idx,
+							What:   fmt.Sprintf("a %T delivered in chunks of %d bytes (phase %d) is not decoded to the envelope sent (clean=%v, decoded %d)", e.Msg, size, phase, clean, len(got)),
+							Replay: map[string]interface{}{"stream": fmt.Sprintf("%x", stream), "chunk_size": size, "phase": phase}})
+					}
+				}
+			}
+		}
+	}
 	flush()
-	res.Rule = "streams of 1-3 well-formed envelopes delivered through a chunking io.Reader: whole, single bytes, 1460-byte segments, one cut at a random offset, 1-7 byte chunks, random chunks; decoded envelopes and clean end compared with run_chunked of the model; distinct by (partition class, envelopes, decoded, chunk count class)"
+	res.Rule = "every message type in regular chunks of 2..9 bytes at every phase; streams of 1-3 well-formed envelopes delivered through a chunking io.Reader: whole, single bytes, 1460-byte segments, one cut at a random offset, 1-7 byte chunks, random chunks; decoded envelopes and clean end compared with run_chunked of the model; distinct by (partition class, envelopes, decoded, chunk count class)"
 	protoc.RunC16(seed, tier, out, total, res)
 	res.Write(out)
 }
